@@ -19,5 +19,7 @@ INVARIANT ImplMapRefinesReq
 INVARIANT LawEvaluatedClips
 INVARIANT LawExtrasWellFormed
 INVARIANT LawUnmatched
+INVARIANT LawFineWellFormed
+INVARIANT LawFineOrders
 INVARIANT LawComputed
 CHECK_DEADLOCK FALSE
